@@ -62,6 +62,14 @@ class EngineAbort(Exception):
     """the encoding cannot continue soundly (unknown callee, unsupported construct)"""
 
 
+class NeedSplit(Exception):
+    """a value must be concrete to go on (array index): the state is split over its feasible values 0..n-1"""
+
+    def __init__(self, term, n):
+        Exception.__init__(self, "case split over %d values" % n)
+        self.term, self.n = term, n
+
+
 # ----------------------------------------------------------------------------- values
 
 class V:
@@ -154,6 +162,27 @@ class Cell:
         self.v = v
 
 
+class ItemCell(Cell):
+    """the k-th element of a list-like value (Vec / slice items, array fields): reads and writes go to the owner,
+    so `v[i] += 1`, `*v.last_mut().unwrap() = x` are seen by later reads of the container"""
+    __slots__ = ("owner", "k")
+
+    def __init__(self, owner, k):
+        self.owner, self.k = owner, k
+
+    def _list(self):
+        o = self.owner
+        return o.attrs["items"] if isinstance(o, OpaqueV) else o.fields
+
+    @property
+    def v(self):
+        return self._list()[self.k]
+
+    @v.setter
+    def v(self, x):
+        self._list()[self.k] = x
+
+
 class RefV(V):
     __slots__ = ("cell", "path")
 
@@ -168,7 +197,7 @@ class RefV(V):
 # ----------------------------------------------------------------------------- state
 
 class Frame:
-    __slots__ = ("fn", "locals", "bb", "dest", "ret_bb", "visits", "on_return", "stop")
+    __slots__ = ("fn", "locals", "bb", "dest", "ret_bb", "visits", "on_return", "stop", "resume")
 
     def __init__(self, fn):
         self.fn = fn
@@ -179,6 +208,7 @@ class Frame:
         self.visits = {}
         self.on_return = None
         self.stop = False
+        self.resume = 0       # statement index to resume at after a case split inside the block
 
 
 class Event:
@@ -213,6 +243,7 @@ class State:
         for f in self.frames:
             g = Frame(f.fn)
             g.bb, g.ret_bb, g.visits, g.on_return, g.stop = f.bb, f.ret_bb, dict(f.visits), f.on_return, f.stop
+            g.resume = f.resume
             g.locals = {k: _cp(c, memo) for k, c in f.locals.items()}
             g.dest = (_cp(f.dest[0], memo), f.dest[1]) if f.dest else None
             s.frames.append(g)
@@ -225,6 +256,11 @@ def _cp(v, memo):
     i = id(v)
     if i in memo:
         return memo[i]
+    if isinstance(v, ItemCell):
+        c = ItemCell(None, v.k)
+        memo[i] = c
+        c.owner = _cp(v.owner, memo)
+        return c
     if isinstance(v, Cell):
         c = Cell()
         memo[i] = c
@@ -404,6 +440,9 @@ class Engine:
                 iv = fr.locals[p[1]].v
                 k = self.concrete_int(st, iv)
                 if k is None:
+                    base = self.read(st, cell, path, None)
+                    if isinstance(base, AggV) and base.variant is None and len(base.fields) <= 64:
+                        raise NeedSplit(iv.t, len(base.fields))
                     raise EngineAbort("symbolic array index in %s" % fr.fn.name)
                 path = path + (("i", k),)
             elif p[0] == "constindex":
@@ -897,16 +936,38 @@ class Engine:
         """run st until it finishes or forks; returns resulting states"""
         while st.status == "running":
             fr = st.frames[-1]
-            n = fr.visits.get(fr.bb, 0) + 1
-            fr.visits[fr.bb] = n
-            if n > self.loop_bound + 1:
-                st.status, st.msg = "bound", "loop bound %d exceeded at %s bb%d" % (self.loop_bound, fr.fn.name, fr.bb)
-                return [st]
+            start, fr.resume = fr.resume, 0
+            if start == 0:
+                n = fr.visits.get(fr.bb, 0) + 1
+                fr.visits[fr.bb] = n
+                if n > self.loop_bound + 1:
+                    st.status, st.msg = "bound", "loop bound %d exceeded at %s bb%d" % (self.loop_bound, fr.fn.name, fr.bb)
+                    return [st]
             stmts, term = fr.fn.blocks[fr.bb]
             self.steps += 1
-            for s in stmts:
-                self.statement(st, fr, s)
-            res = self.terminator(st, fr, term)
+            i = start
+            try:
+                while i < len(stmts):
+                    self.statement(st, fr, stmts[i])
+                    i += 1
+                res = self.terminator(st, fr, term)
+            except NeedSplit as ns:
+                # re-run the interrupted statement (or terminator) once per feasible value of the index
+                outs = []
+                for k in range(ns.n):
+                    sat, _m = self.check(st.pc + [ns.term == k])
+                    if not sat:
+                        continue
+                    s2 = st.clone()
+                    s2.pc.append(ns.term == k)
+                    s2.frames[-1].resume = i if i > 0 else 0
+                    if i == 0:
+                        s2.frames[-1].visits[fr.bb] -= 1
+                    outs.append(s2)
+                if not outs:
+                    st.status = "infeasible"
+                    return [st]
+                return outs
             if res is not None:
                 return res
         return [st]
